@@ -152,6 +152,9 @@ func (c *Conn) getRedo() [][]byte {
 	// normally this channel should already have been closed by the time we call this, but this is hard/complicated to enforce
 	// so instead let's leverage a select. as soon as it blocks (due to chan close or no more input but not closed yet) we know we're
 	// done reading and move on. it's easy to prove in the implementer that we don't send any more data to In after calling this
+	// HandleData may still hold a line it took from In but has not added to keepSafe yet: wait until it has stopped
+	// (the conn is closed, so it and checkEOF return promptly), otherwise that line is collected by nobody
+	c.wg.Wait()
 	defer c.clearRedo()
 	for {
 		select {
